@@ -1,6 +1,7 @@
 package main
 
 import (
+	"bytes"
 	"errors"
 	"fmt"
 	"io"
@@ -49,9 +50,25 @@ func getErrKind(err error) string {
 	return "err:other:" + err.Error()
 }
 
+// the exported constructors (NewType, NewUsername, NewRealm, NewNonce, NewSoftware, NewShortTermIntegrity) are
+// documented as plain conversions; half of the setters are built through them (chosen by the token, so that a replay
+// makes the same choice)
 func parseSetter(tok string) stun.Setter {
 	p := strings.Split(tok, ":")
+	viaCtor := len(tok)%2 == 0
 	switch {
+	case p[0] == "type" && len(p) == 3 && viaCtor:
+		return stun.NewType(stun.Method(atoi(p[1])), stun.MessageClass(atoi(p[2])))
+	case p[0] == "user" && len(p) == 2 && viaCtor:
+		return stun.NewUsername(string(unhex(p[1])))
+	case p[0] == "realm" && len(p) == 2 && viaCtor:
+		return stun.NewRealm(string(unhex(p[1])))
+	case p[0] == "nonce" && len(p) == 2 && viaCtor:
+		return stun.NewNonce(string(unhex(p[1])))
+	case p[0] == "soft" && len(p) == 2 && viaCtor:
+		return stun.NewSoftware(string(unhex(p[1])))
+	case p[0] == "mi" && len(p) == 2 && viaCtor:
+		return stun.NewShortTermIntegrity(string(unhex(p[1])))
 	case p[0] == "type" && len(p) == 3:
 		return stun.MessageType{Method: stun.Method(atoi(p[1])), Class: stun.MessageClass(atoi(p[2]))}
 	case p[0] == "tid" && len(p) == 2:
@@ -69,9 +86,9 @@ func parseSetter(tok string) stun.Setter {
 	case p[0] == "soft" && len(p) == 2:
 		return stun.Software(unhex(p[1]))
 	case p[0] == "xor" && len(p) == 4:
-		return xorAs{stun.XORMappedAddress{IP: net.IP(unhex(p[2])), Port: atoi(p[3])}, stun.AttrType(atoi(p[1]))}
+		return xorAs{stun.XORMappedAddress{IP: ipWithSpare(unhex(p[2])), Port: atoi(p[3])}, stun.AttrType(atoi(p[1]))}
 	case p[0] == "map" && len(p) == 4:
-		return mappedAs{&stun.MappedAddress{IP: net.IP(unhex(p[2])), Port: atoi(p[3])}, stun.AttrType(atoi(p[1]))}
+		return mappedAs{&stun.MappedAddress{IP: ipWithSpare(unhex(p[2])), Port: atoi(p[3])}, stun.AttrType(atoi(p[1]))}
 	case p[0] == "ec" && len(p) == 3:
 		return stun.ErrorCodeAttribute{Code: stun.ErrorCode(atoi(p[1])), Reason: unhex(p[2])}
 	case p[0] == "ecd" && len(p) == 2:
@@ -90,6 +107,17 @@ func parseSetter(tok string) stun.Setter {
 		return stun.Fingerprint
 	}
 	panic("harness: bad setter " + tok)
+}
+
+// a caller's IP is often a slice of something longer: 16 spare bytes (0xA5) sit behind it, and nothing of them may be
+// read (every other token gets the exact-capacity slice, where reading past the end panics instead)
+func ipWithSpare(b []byte) net.IP {
+	if len(b)%2 == 1 {
+		return net.IP(b)
+	}
+	buf := bytes.Repeat([]byte{0xA5}, len(b)+16)
+	copy(buf, b)
+	return net.IP(buf[:len(b)])
 }
 
 // the typed setters whose attribute type is a parameter; the dedicated types are used where they exist
